@@ -293,6 +293,35 @@ async fn run_server_cell(c: &Cell) -> Result<Observed, String> {
             let _ = tls.shutdown().await;
         }
     }
+    // a peer that must be refused gets no session at all: on further connections the server ends
+    // the connection by itself while the peer stays silent, and nothing the peer sends - not even
+    // a frame no handler would ever see - is answered
+    if !admitted && ref_tls(c).map(|e| !e.admitted).unwrap_or(false) {
+        for probe in [&b""[..], &[0x00, 0x09, 0x00, 0x00, 0x00, 0x02, 0x01, 0x41][..], &[0x00, 0x0A, 0x00, 0x00, 0x00, 0x06, 0x01, 0x03, 0x00][..]] {
+            let Ok(tcp) = connect_from("127.0.0.1", s.addr).await else { continue };
+            let connector = tokio_rustls::TlsConnector::from(peer_client_config(c.peer, present));
+            let name = rustls::pki_types::ServerName::try_from("test.com").unwrap();
+            if let Ok(Ok(mut tls)) = tokio::time::timeout(STEP_TIMEOUT, connector.connect(name, tcp)).await {
+                if !probe.is_empty() {
+                    let _ = write_all(&mut tls, probe).await;
+                }
+                match read_n(&mut tls, 1, STEP_TIMEOUT).await {
+                    ReadOutcome::Bytes(b) => {
+                        admitted = true;
+                        detail = format!("after sending {} the peer received application data ({}...)", hex(probe), hex(&b));
+                    }
+                    ReadOutcome::Timeout(_) => {
+                        admitted = true;
+                        detail = format!("after sending {} the connection was still open after {STEP_TIMEOUT:?}: the peer holds a session", if probe.is_empty() { "nothing".to_string() } else { hex(probe) });
+                    }
+                    _ => {}
+                }
+                if admitted {
+                    break;
+                }
+            }
+        }
+    }
     tokio::time::sleep(Duration::from_millis(5)).await;
     let calls = s.app.log.lock().unwrap().clone();
     let roles_seen: Vec<String> = calls.iter().filter_map(|c| if let Call::Auth { role, .. } = c { Some(role.clone()) } else { None }).collect();
